@@ -11,46 +11,49 @@ open UtilModel
 
 /-! ## C06 — the key set equals what Set/Remove/Sync/refs asked for, delays included -/
 
-/-- **C06 (refinement).** After any run of the model, the next event acts on the abstract key set
-(`abs`) exactly as the specification says (`specEv`: the rule of the call at its critical section,
-`advance` ends the epoch, every other event — goroutines, timers — is invisible), and the results
-stored for the call's `ret` are the ones the specification allows (`SpecOut`: existed, added,
-removed, data; key lists as sets). -/
+/-- **C06 (refinement).** After any run of the model (any number of concurrent callers), the next event
+acts on the abstract key set (`abs`) exactly as the specification says (`specEv`: the rule of the call
+at its critical section, `advance` ends the epoch, the callback of a removal timer expires its key,
+every other event — goroutines, retry timers — is invisible), and the results stored for the call's
+`ret` are the ones the specification allows (`SpecOut`: existed, added, removed, data; key lists as
+sets). -/
 theorem C06_refinement (es : List Ev) (s s' : St) (e : Ev)
     (hr : model.run model.init es = some s) (hs : model.step s e = some s') :
     abs s' = specEv (abs s) s e ∧
-    (∀ id op, e = .exec → s.call = .invoked id op →
-      ∃ cs res, s'.call = .done id cs res ∧ SpecOut (abs s) (abs s') op res) :=
+    (∀ id op, e = .exec id → pendingOp s.calls id = some op →
+      ∃ cs res, .done id cs res ∈ s'.calls ∧ SpecOut (abs s) (abs s') op res) :=
   step_refines s s' e (rinv_reachable s ⟨es, hr⟩) hs
 
 /-- the value a call returns is the one computed in its critical section -/
 theorem C06_ret_is_result (s s' : St) (id : Nat) (res : Res) (hs : model.step s (.ret id res) = some s') :
-    ∃ cs, s.call = .done id cs res := by
+    .done id [] res ∈ s.calls := by
   simp only [model, step] at hs
   split at hs
-  · rename_i id' res' hc
-    split at hs
-    · rename_i h; obtain ⟨rfl, rfl⟩ := h; exact ⟨[], hc⟩
-    · simp at hs
+  · rename_i hc; simpa using hc
   · simp at hs
 
 /-- **C06 (delay).** A key removed with a release delay whose routine has not failed is `leaving`
-(the rule), it stays in the set under every event until the epoch ends … -/
-theorem C06_leaving_until_advance (es : List Ev) (s s' : St) (e : Ev)
-    (hr : model.run model.init es = some s) (hs : model.step s e = some s') (he : e ≠ .advance)
-    (k d ep : Nat) (h : (abs s).st k = .leaving d ep) : (abs s').inSet k = true :=
-  leaving_step s s' e (rinv_reachable s ⟨es, hr⟩) hs he k d ep h
+(the rule); it stays in the set under every event except the callback of its own removal timer … -/
+theorem C06_leaving_until_expiry (es : List Ev) (s s' : St) (e : Ev) (k : Nat)
+    (hr : model.run model.init es = some s) (hs : model.step s e = some s') (he : e ≠ .timerRemove k)
+    (d ep : Nat) (h : (abs s).st k = .leaving d ep) : (abs s').inSet k = true :=
+  leaving_step s s' e (rinv_reachable s ⟨es, hr⟩) hs he d ep h
 
 theorem C06_removed_with_delay (a : ASt) (k d : Nat) (hd : a.delay = true) (h : a.st k = .present d) :
     (dismiss a false k).st k = .leaving d a.epoch := dismiss_leaving a k d hd h
 
-/-- … `advance` is what removes it … -/
-theorem C06_leaving_expires (a : ASt) (k d e : Nat) (h : a.st k = .leaving d e) :
-    (specAdvance a).st k = .absent := advance_leaving a k d e h
+/-- … that callback runs only after the epoch in which the timer was armed has ended (after the next
+`advance`), and it is what removes the key … -/
+theorem C06_expiry_after_advance (s s' : St) (k : Nat) (hs : model.step s (.timerRemove k) = some s') :
+    ∃ r e, s.key k = some r ∧ r.deferRemove = some e ∧ e < s.epoch :=
+  timerRemove_after_advance s s' k hs
+
+theorem C06_leaving_expires (a : ASt) (k d e : Nat) (h : a.st k = .leaving d e) (he : e < a.epoch) :
+    (expire a k).st k = .absent := expire_leaving a k d e h he
 
 /-- … and if it is requested again before (by `SetKey`, `SyncKeys` or a new reference) it is
 `present`, which no event other than the critical section of a later call can change (in particular
-not the end of the epoch). -/
+neither the end of the epoch nor a timer callback that had already fired: C06-s2). -/
 theorem C06_rerequest_setKey (a : ASt) (k : Nat) : ∃ d, (request a k).st k = .present d := request_present a k
 theorem C06_rerequest_sync (a : ASt) (f : Nat → Bool) (ks : List Nat) (r : Bool) (k : Nat) (hk : k ∈ ks) :
     ∃ d, (specStep a f (.syncKeys ks r)).st k = .present d := sync_present a f ks r k hk
@@ -58,7 +61,7 @@ theorem C06_rerequest_ref (a : ASt) (f : Nat → Bool) (k : Nat) :
     ∃ d, (specStep a f (.addKeyRef k)).st k = .present d := addKeyRef_present a f k
 
 theorem C06_present_for_good (es : List Ev) (s s' : St) (e : Ev)
-    (hr : model.run model.init es = some s) (hs : model.step s e = some s') (he : e ≠ .exec)
+    (hr : model.run model.init es = some s) (hs : model.step s e = some s') (he : ∀ id, e ≠ .exec id)
     (k d : Nat) (h : (abs s).st k = .present d) : (abs s').st k = .present d :=
   present_step s s' e (rinv_reachable s ⟨es, hr⟩) hs he k d h
 
@@ -174,9 +177,9 @@ theorem retry_pending_fires (es : List Ev) (s : St) (hr : model.run model.init e
 /-! ## the hypotheses are satisfiable / the model does something -/
 
 private def cfgD : Cfg := { rc := false, delay := true, retry := some 2 }
-private def evs1 : List Ev := [.config cfgD, .inv 0 (.setContext (some 1) false), .exec, .ret 0 .unit,
-  .inv 1 (.setKey 1 true), .exec, .ctor 1 1, .ret 1 (.dataExisted 1 false),
-  .inv 2 (.removeKey 1), .exec, .ret 2 (.bool true)]
+private def evs1 : List Ev := [.config cfgD, .inv 0 (.setContext (some 1) false), .exec 0, .ret 0 .unit,
+  .inv 1 (.setKey 1 true), .exec 1, .ctor 1 1, .ret 1 (.dataExisted 1 false),
+  .inv 2 (.removeKey 1), .exec 2, .ret 2 (.bool true)]
 
 /-- removed with a delay: leaving in epoch 0 -/
 example : ((model.run model.init evs1).map fun s => (abs s).st 1) = some (.leaving 1 0) := by decide
@@ -184,14 +187,14 @@ example : ((model.run model.init evs1).map fun s => (abs s).st 1) = some (.leavi
 example : ((model.run model.init (evs1 ++ [.advance, .timerRemove 1])).map fun s => (s.key 1).isSome) = some false := by
   decide
 /-- `SyncKeys` keeps it for good (D5) -/
-example : ((model.run model.init (evs1 ++ [.inv 3 (.syncKeys [1] false), .exec, .ret 3 (.sync [] []), .advance])).map
+example : ((model.run model.init (evs1 ++ [.inv 3 (.syncKeys [1] false), .exec 3, .ret 3 (.sync [] []), .advance])).map
     fun s => (abs s).st 1) = some (.present 1) := by decide
 
 private def evs2 : List Ev := [.config { rc := false, delay := false, retry := some 2 },
-  .inv 0 (.setContext (some 1) false), .exec, .ret 0 .unit,
-  .inv 1 (.setKey 1 true), .exec, .ctor 1 1, .ret 1 (.dataExisted 1 false),
+  .inv 0 (.setContext (some 1) false), .exec 0, .ret 0 .unit,
+  .inv 1 (.setKey 1 true), .exec 1, .ctor 1 1, .ret 1 (.dataExisted 1 false),
   .proceed 0 0, .cbin 0 0 0 1 1, .cbout 0 .err, .closeExit 0 0, .record 0 0,
-  .inv 2 (.setKey 1 false), .exec, .ret 2 (.dataExisted 1 true)]
+  .inv 2 (.setKey 1 false), .exec 2, .ret 2 (.dataExisted 1 true)]
 
 /-- a failed routine has a retry pending, also after `SetKey(1, false)` (D6); after `advance` the timer starts
 a second instance, which enters the routine function again -/
@@ -201,21 +204,21 @@ example : (model.run model.init (evs2 ++ [.advance, .timerRetry 1, .proceed 0 1,
   decide
 /-- two restarts inside one exit latency: the third instance cannot enter while the first is running -/
 example : (model.run model.init [.config { rc := false, delay := false, retry := none },
-    .inv 0 (.setContext (some 1) false), .exec, .ret 0 .unit,
-    .inv 1 (.setKey 1 true), .exec, .ctor 1 1, .ret 1 (.dataExisted 1 false), .proceed 0 0, .cbin 0 0 0 1 1,
-    .inv 2 (.restartRoutine 1), .exec, .ret 2 (.existedReset true true),
-    .inv 3 (.restartRoutine 1), .exec, .ret 3 (.existedReset true true),
+    .inv 0 (.setContext (some 1) false), .exec 0, .ret 0 .unit,
+    .inv 1 (.setKey 1 true), .exec 1, .ctor 1 1, .ret 1 (.dataExisted 1 false), .proceed 0 0, .cbin 0 0 0 1 1,
+    .inv 2 (.restartRoutine 1), .exec 2, .ret 2 (.existedReset true true),
+    .inv 3 (.restartRoutine 1), .exec 3, .ret 3 (.existedReset true true),
     .bail 0 1, .proceed 0 2]).isSome = false := by decide
 
 /-- regression for D18-keyed (fixed in /repo a27bd68): `ResetRoutine` with a nil `Routine`, then
 `ResetRoutine` again while the first routine is still running — the new instance waits (its `proceed`
 is not enabled), and it is enabled once the first instance has returned and closed its channel -/
 private def d18Prefix : List Ev := [.config { rc := false, delay := false, retry := none },
-  .inv 0 (.setContext (some 1) false), .exec, .ret 0 .unit,
-  .inv 1 (.setKey 1 true), .exec, .ctor 1 1, .ret 1 (.dataExisted 1 false), .proceed 0 0, .cbin 0 0 0 1 1,
+  .inv 0 (.setContext (some 1) false), .exec 0, .ret 0 .unit,
+  .inv 1 (.setKey 1 true), .exec 1, .ctor 1 1, .ret 1 (.dataExisted 1 false), .proceed 0 0, .cbin 0 0 0 1 1,
   .nilnext 1,
-  .inv 2 (.resetRoutine 1), .exec, .ctor 1 2, .ret 2 (.existedReset true true),
-  .inv 3 (.resetRoutine 1), .exec, .ctor 1 3, .ret 3 (.existedReset true true)]
+  .inv 2 (.resetRoutine 1), .exec 2, .ctor 1 2, .ret 2 (.existedReset true true),
+  .inv 3 (.resetRoutine 1), .exec 3, .ctor 1 3, .ret 3 (.existedReset true true)]
 example : (model.run model.init (d18Prefix ++ [.proceed 0 1])).isSome = false := by decide
 example : (model.run model.init (d18Prefix ++ [.cbout 0 .canceled, .closeExit 0 0, .proceed 0 1, .cbin 1 0 1 1 3])).isSome = true := by
   decide
